@@ -23,6 +23,7 @@ type ndFinding struct {
 var detAllowPkgs = map[string]bool{
 	"math": true, "sort": true, "fmt": true, "errors": true, "github.com/pkg/errors": true, "strings": true,
 	"strconv": true, "bufio": true, "bytes": true, "io": true, "context": true, "sync/atomic": true, "sync": true,
+	"slices": true, // deterministic functions of their arguments (unlike package maps, whose iteration order is not)
 	"log": true, "gopkg.in/yaml.v3": true, "github.com/spf13/cast": true, "unicode": true, "unicode/utf8": true,
 }
 
